@@ -332,4 +332,25 @@ PROPS = {
                         "the completion budget is (1+retries) x read timeout for datagrams times the number of queued requests a max_parallel of 1 may put "
                         "ahead, and a small multiple of the response timeout for streams"],
     },
+    "C16": {
+        "level": "exploration",
+        "features": ["crypto", "hooks"],
+        "stages": [
+            {"mode": "native", "cpu_budget": 400},
+            {"mode": "asan", "shards": 4, "scale": 0.05, "tiers": ["thorough"], "cpu_budget": 900},
+        ],
+        "rule": "an evaluation is one request served by DgramServer (mock AsyncDgramSock) or StreamServer (mock AsyncAccept over tokio duplex streams) with the "
+                "stack MandatoryMiddlewareSvc(EdnsMiddlewareSvc(service)) under the paused tokio clock; the query name tells the service what to do: one "
+                "response of n records (sizes chosen around 512, 1232, 4096 and 65535), k responses in sequence, a delayed response, or a failure. UDP: 1-24 "
+                "datagrams per case from distinct addresses, EDNS size in {none, 0, 100, 511, 512, 513, 1232, 4096, 65535}, configured maximum in {512, 1232, "
+                "4096, none}, a quarter of them hostile (short, random, QR set, QDCOUNT 65535, truncated question, mutated message, odd opcode, two OPTs), "
+                "then a probe: exactly one response to the sender with its ID and question, never longer than min(max(512, EDNS size), configured maximum) "
+                "resp. 512 without EDNS, complete when it fits, TC set and parseable when not. Streams: 1-5 connections with 1-10 pipelined requests written "
+                "in chunks of 1..all octets, every fifth aborted at a random octet, hostile frames (zero length, shorter than a header, never completed, half "
+                "a length prefix), then a probe connection: every octet the server writes parses as length-prefixed messages, each the response to a request "
+                "of that connection, the right number of them and in the service's order, nothing needlessly truncated; the server task stays alive, no task "
+                "panics; distinct = (transport, service kind, EDNS class, configured maximum, TC, size class) resp. (kind, count, chunking, pipeline depth)",
+        "assumptions": ["a connection that carried hostile input may be closed by the server: requests behind it need not be answered",
+                        "a hostile datagram may be answered (at most once, with its ID) or dropped"],
+    },
 }
